@@ -25,6 +25,8 @@ STrimmed == [data |-> EmptyData, idx |-> [EmptyIdx EXCEPT !["i1"] = Ent("i1", "c
 SShared == [data |-> [EmptyData EXCEPT !["c2"] = Full("c2")], idx |-> [EmptyIdx EXCEPT !["i2"] = Ent("i2", "c2")], started |-> {<<"i2", "c2">>}, damaged |-> FALSE, name |-> "shared"]
 \* i1 -> c3 stored earlier: a Put of i1 with c2 overwrites the entry with different content of equal length
 SOther == [data |-> [EmptyData EXCEPT !["c3"] = Full("c3")], idx |-> [EmptyIdx EXCEPT !["i1"] = Ent("i1", "c3")], started |-> {<<"i1", "c3">>}, damaged |-> FALSE, name |-> "other"]
+\* i1 -> c3 and i2 -> c3 stored earlier: a Put of i1 with c2 re-records i1 while i2 keeps sharing the old output
+SBoth == [data |-> [EmptyData EXCEPT !["c3"] = Full("c3")], idx |-> [EmptyIdx EXCEPT !["i1"] = Ent("i1", "c3"), !["i2"] = Ent("i2", "c3")], started |-> {<<"i1", "c3">>, <<"i2", "c3">>}, damaged |-> FALSE, name |-> "both"]
 
 \* pre-damaged outputs (only the checksum-verified lookups are asserted): same size wrong bytes / shorter / longer
 SDamSame  == [data |-> [EmptyData EXCEPT !["c2"] = [ex |-> TRUE, b |-> Junk(3)]], idx |-> [EmptyIdx EXCEPT !["i1"] = Ent("i1", "c2")], started |-> {<<"i1", "c2">>}, damaged |-> TRUE, name |-> "damsame"]
@@ -47,7 +49,7 @@ ProgsC12 == { P(<<Put("i1", "c2", rd)>>, <<>>, <<>>) : rd \in Rds }
             \cup { P(<<Put("i2", "c2", rd)>>, <<>>, <<>>) : rd \in {"same", "diff"} }
 
 MCProgs == IF Family = "C11" THEN ProgsC11 ELSE ProgsC12
-MCStarts == IF Family = "C11" THEN {SEmpty, STrimmed} ELSE {SEmpty, STrimmed, SShared, SOther, SDamSame, SDamShort, SDamLong}
+MCStarts == IF Family = "C11" THEN {SEmpty, STrimmed} ELSE {SEmpty, STrimmed, SShared, SOther, SBoth, SDamSame, SDamShort, SDamLong}
 
 EmitStep == IF Emit /\ hist' # hist
             THEN PrintT(<<"EMIT", ToJson([prog |-> prog, start |-> base.name, sched |-> sched', hist |-> hist'])>>) ELSE TRUE
